@@ -160,6 +160,8 @@ const confSecond = `  - name: datadogAPI
         httpTimeout: 30s
 `
 
+var runNo int
+
 var shapes = []string{"short", "longfull", "longbare", "escaped", "escapedlong", "multiline", "malformed", "dropped", "badtime", "email"}
 
 var baseTime = time.Date(2020, 7, 20, 3, 0, 0, 0, time.UTC)
@@ -427,18 +429,31 @@ func Main(args []string) int {
 	}
 	rnd.Shuffle(len(mine), func(i, j int) { mine[i], mine[j] = mine[j], mine[i] })
 
-	for _, nOut := range []int{1, 2} {
-		root := filepath.Join(*work, fmt.Sprintf("rp-%d-%d", o.Shard, nOut))
-		_ = os.RemoveAll(root)
-		_ = os.MkdirAll(root, 0o755)
-		text := confHead
-		if nOut == 2 {
-			text += confSecond
+	// one long-lived agent per batch of histories (the collector is off while an agent runs; memory is returned between)
+	const batch = 150
+	for b := 0; b*batch < len(mine); b++ {
+		end := (b + 1) * batch
+		if end > len(mine) {
+			end = len(mine)
 		}
-		cf := filepath.Join(root, "conf.yml")
-		_ = os.WriteFile(cf, []byte(strings.ReplaceAll(text, "ROOT", root)), 0o644)
-		runAgent(o, cf, root, nOut, mine, rnd)
-		os.RemoveAll(root)
+		for _, nOut := range []int{1, 2} {
+			root := filepath.Join(*work, fmt.Sprintf("rp-%d-%d", o.Shard, nOut))
+			_ = os.RemoveAll(root)
+			_ = os.MkdirAll(root, 0o755)
+			text := confHead
+			if nOut == 2 {
+				text += confSecond
+			}
+			cf := filepath.Join(root, "conf.yml")
+			_ = os.WriteFile(cf, []byte(strings.ReplaceAll(text, "ROOT", root)), 0o644)
+			runNo++
+			runAgent(o, cf, root, nOut, mine[b*batch:end], rnd)
+			os.RemoveAll(root)
+			debug.SetGCPercent(100)
+			runtime.GC()
+			debug.FreeOSMemory()
+			debug.SetGCPercent(-1)
+		}
 	}
 	o.Close()
 	return 0
@@ -524,7 +539,7 @@ func runAgent(o *fnutil.Out, cf, root string, nOut int, hists [][]string, rnd *r
 	}
 	defer func() { vhook.Emit = nil }()
 
-	prefix := fmt.Sprintf("rp%d_%d_", o.Shard, nOut)
+	prefix := fmt.Sprintf("rp%d_%d_%d_", o.Shard, nOut, runNo)
 	ld, err := run.NewLoaderFromConfigFile(cf, prefix)
 	if err != nil {
 		o.Emit(map[string]any{"ev": "HarnessError", "what": err.Error()})
